@@ -269,6 +269,9 @@ Lemma rd_len_ins nbits bs outs ins :
   reaching_definitions nbits bs = Some (outs, ins) -> length ins = length bs.
 Proof. unfold reaching_definitions. intros H. apply rd_loop_len_ins in H. rewrite H. apply map_length. Qed.
 
+Lemma nth_repeat_false n : forall e, nth e (repeat false n) false = false.
+Proof. induction n as [|n IH]; intros [|e]; simpl; auto. Qed.
+
 Lemma firstn_S_nth {A} (l : list A) k x : nth_error l k = Some x -> firstn (S k) l = firstn k l ++ [x].
 Proof.
   revert k. induction l as [|a l IH]; intros [|k] H; simpl in *; try discriminate.
@@ -603,10 +606,8 @@ Section Bridge.
       rewrite Hlen in W. rewrite W. cbn [fst]. cbv zeta. rewrite Hse'.
       specialize (HQ e He Hse). unfold INb in HQ. destruct (Nat.eqb_spec b 0); [lia|].
       rewrite has_uninit_spec, HQ. unfold classify.
-      assert (Es : nth e (c_static cc) false = false).
-      { unfold cc, cfg_of. simpl. clear. revert e. induction ne as [|n IH]; intros [|e]; simpl; auto. }
-      assert (Ec : nth e (c_closure cc) false = false).
-      { unfold cc, cfg_of. simpl. clear. revert e. induction ne as [|n IH]; intros [|e]; simpl; auto. }
+      assert (Es : nth e (c_static cc) false = false) by apply nth_repeat_false.
+      assert (Ec : nth e (c_closure cc) false = false) by apply nth_repeat_false.
       rewrite Es, Ec. destruct (has_other mask _ e); discriminate.
     Qed.
   End WithSolution.
